@@ -5,7 +5,7 @@ FILES = ["harness/algo/ref.go", "harness/algo/c03.go"]
 def run(c, replay):
     ov = c.harness_overlay("src/algo", FILES)
     b = c.build_test("src/algo", ov)
-    c.bounds = dict(text_len=c.pick(4, 5), text_alphabet="a b A 1 ␠ / - _ á Á 가 ,", pattern_len=3, pattern_alphabet="a b A 1 á",
+    c.bounds = dict(text_len=c.pick(4, 5), text_alphabet="a b A 1 ␠ / - _ á Á 가 , U+3000 ٣ —", pattern_len=3, pattern_alphabet="a b A 1 á",
                     schemes=3, flags="case x normalise x direction x representation")
     c.assumptions += ["reference recurrence and alignment scorer written from the documented rules (harness/algo/ref.go)",
                       "EqualMatch / ExactMatchBoundary: only the documented ordering, positivity and independence of surroundings are demanded",
@@ -14,7 +14,7 @@ def run(c, replay):
         c.run_layer(b, "TestVerif_C03_short", "short", replay=replay, deadline_s=60)
         return
     c.run_layer(b, "TestVerif_C03_short", "short", deadline_s=c.pick(80, 900),
-                rule="all texts over an 11-symbol alphabet (one symbol per character class) up to the length bound x all patterns <= 3 x folding x direction "
+                rule="all texts over a 15-symbol alphabet (one symbol per character class) up to the length bound x all patterns <= 3 x folding x direction "
                      "x representation x 3 schemes: V2 score == naive whole-line recurrence, <= best existing alignment; V1/exact/prefix/suffix == score "
                      "of the reported occurrence; non-trivial = (text, pattern) evaluations where a match exists; states = distinct texts")
     c.run_layer(b, "TestVerif_C03_long", "long", deadline_s=c.pick(60, 300),
